@@ -1,0 +1,24 @@
+//go:build verif
+
+package iobroker
+
+/*
+ * verif_on.go
+ * Verification hook (build tag verif is on)
+ */
+
+import (
+	"context"
+	"sync/atomic"
+)
+
+// VerifHook, if set, is called at named points in Broker.connect.  It may
+// block.  It only exists when built with -tags verif.
+var VerifHook atomic.Pointer[func(ctx context.Context, point, dir, key string)]
+
+// verifPoint calls the function in VerifHook, if any.
+func verifPoint(ctx context.Context, point string, dir sDirection, key string) {
+	if f := VerifHook.Load(); nil != f {
+		(*f)(ctx, point, string(dir), key)
+	}
+}
